@@ -152,6 +152,8 @@ var featureOrder = []string{
 	"embedded-field",
 	"blank-field",
 	"nested-struct",
+	"field-before-wider-aligned-field",
+	"complex64",
 	"complex128",
 }
 
@@ -174,6 +176,9 @@ func features(t *Typ) map[string]bool {
 			if u.Basic == "complex128" {
 				fs["complex128"] = true
 			}
+			if u.Basic == "complex64" {
+				fs["complex64"] = true
+			}
 		}
 	}
 	visitStruct = func(s *Typ, base int64, isField bool) {
@@ -185,7 +190,7 @@ func features(t *Typ) map[string]bool {
 		if n > 0 && isField {
 			fs["nested-struct"] = true
 			ls, _ := sizeAlign(s.Fields[n-1].T)
-			if size > offs[n-1]+ls && ls != 0 {
+			if size > offs[n-1]+ls {
 				if base > 0 {
 					fs["nested-struct-tail-padding-at-nonzero-offset"] = true
 				} else if base == 0 {
@@ -218,6 +223,12 @@ func features(t *Typ) map[string]bool {
 					if _, b := sizeAlign(g.T); b > a {
 						fs["nested-struct-before-wider-aligned-field"] = true
 					}
+				}
+			}
+			if i+1 < n && !isField && base == 0 && s == t.under() {
+				_, a := sizeAlign(f.T)
+				if _, b := sizeAlign(s.Fields[i+1].T); b > a {
+					fs["field-before-wider-aligned-field"] = true
 				}
 			}
 			fb := int64(-1)
